@@ -277,7 +277,12 @@ function safeStringify(value: unknown): string {
     });
     return out === undefined ? String(value) : out;
   } catch {
-    return String(value);
+    try {
+      return String(value);
+    } catch {
+      // an object without toString / valueOf (Object.create(null)) cannot be converted at all
+      return Object.prototype.toString.call(value);
+    }
   }
 }
 
